@@ -92,11 +92,39 @@ func c18Scope(p *Prog) (entries []*ssa.Function, scope map[*ssa.Function]bool) {
 			entries = append(entries, f)
 		}
 	}
-	scope = reachableStatic(entries, func(f *ssa.Function) bool {
+	keep := func(f *ssa.Function) bool {
 		pk := p.PkgOf(f)
 		// stay inside the output layer and what it is built from
 		return c18EntryPkgs[pk] || hasPrefixAny(pk, "zio/", "zson", "pkg/bufwriter", "vng", "lake/", "zbuf", "pkg/storage", "zcode", "pkg/terminal/color")
-	})
+	}
+	roots := append([]*ssa.Function{}, entries...)
+	for {
+		scope = reachableStatic(roots, keep)
+		// calls through interfaces that the module itself defines (vng.Encoder.Emit, ...): the
+		// module's implementers are part of the write path too
+		added := false
+		for f := range scope {
+			for _, ci := range allCalls(f) {
+				cc := ci.Common()
+				if !cc.IsInvoke() || errIndex(cc.Signature()) < 0 || !(sinkMethodNames[cc.Method.Name()] || cc.Method.Name() == "Emit") {
+					continue
+				}
+				nt, ok := cc.Value.Type().(*types.Named)
+				if !ok || nt.Obj().Pkg() == nil || !strings.HasPrefix(nt.Obj().Pkg().Path(), modPath) {
+					continue
+				}
+				for _, g := range p.implementersOfCall(cc) {
+					if !scope[g] && keep(g) && g.Blocks != nil && !strings.HasSuffix(p.Pos(g.Pos()), "_test.go") {
+						roots = append(roots, g)
+						added = true
+					}
+				}
+			}
+		}
+		if !added {
+			break
+		}
+	}
 	return
 }
 
@@ -163,7 +191,11 @@ func runC18(c *Ctx, tier string) {
 			}
 			switch errVerdict(ci) {
 			case "propagated":
-				c.OK("C18-E1", construct, ci.Pos(), "propagated")
+				if ret := errDeadOnSomePath(ci); ret != nil {
+					c.Fail("C18-E1", construct, ci.Pos(), "error result of "+callee+" is looked at on some paths only: the return at "+p.Pos(ret.Pos())+" is reachable from the call without any test, return or store of that error (dropped on that path)")
+				} else {
+					c.OK("C18-E1", construct, ci.Pos(), "propagated on every path")
+				}
 			case "dropped":
 				how := "result discarded"
 				if _, ok := ci.(*ssa.Defer); ok {
